@@ -14,7 +14,8 @@
    the least one is the least fixpoint).  [pull rmap v] reads v through the
    returned keys: reference node n gets the value of the key returned for it. *)
 From Coq Require Import ZArith List Bool.
-From PL.C11 Require Import ModelBuilder ProofsBasics ProofsBuilder ProofsInv ProofsStep ProofsSem.
+From PL.C11 Require Import ModelBuilder ProofsBasics ProofsBuilder ProofsInv ProofsStep ProofsSem
+  ProofsCompleteShape ProofsCompleteInv ProofsComplete ProofsCompleteLfp ProofsCompleteAtoms ProofsCompleteMain.
 Import ListNotations.
 Open Scope Z_scope.
 
@@ -89,13 +90,87 @@ Theorem C11_trace_is_run : forall o pcl ops r acc rets r',
 Proof. exact run_trace_ok. Qed.
 Print Assumptions C11_trace_is_run.
 
-(* NOT proved (see notes/C11.md):
-   C11_builder_complete : forall ... run o pcl init ops = Ok r ->
-     forall a w, sol a (rg r) w -> exists v, sol a (nodes (impl r)) v /\ forall i in range, pull (rmap r) v i = w i
-   (every supported valuation of the reference graph is realised by the builder's graph), and with it
-   C11_builder_sound_lfp : lfp_val a (nodes (impl r)) (key i) = lfp_val a (rg r) (Some i) for stratified cyclic
-   histories.  For cyclic histories the proved statement is C11_builder_sound (supported valuations), the
-   least-fixpoint reading is covered by the tie only. *)
+(* ------------------------------------------------------------------------------------------------
+   COMPLETENESS (the converse of C11_builder_sound), for every option vector, probability-class map and
+   history -- cyclic histories, mutable disjunctions, max_arity splitting, folding to TRUE/FALSE included:
+   every supported valuation w of the reference graph is realised by a supported valuation v of the builder's
+   graph whose returned keys carry exactly the values of w.  Together with soundness: read through the
+   returned keys, the builder's graph and the unoptimised graph have the same supported valuations; in
+   particular soundness cannot hold vacuously (the builder's graph has a supported valuation whenever the
+   reference equations have one). *)
+Theorem C11_builder_complete : forall o pcl ops r, run o pcl init ops = Ok r ->
+  forall a w, sol a (rg r) w ->
+  exists v, sol a (nodes (impl r)) v /\
+            forall n, (n < length (rg r))%nat -> pull (rmap r) v (Z.of_nat n + 1) = w (Z.of_nat n + 1).
+Proof. exact builder_complete. Qed.
+Print Assumptions C11_builder_complete.
+
+Corollary C11_builder_has_supported_valuation : forall o pcl ops r, run o pcl init ops = Ok r ->
+  forall a, (exists w, sol a (rg r) w) -> exists v, sol a (nodes (impl r)) v.
+Proof. exact builder_has_sol. Qed.
+Print Assumptions C11_builder_has_supported_valuation.
+
+(* The structural invariant behind completeness (ProofsCompleteInv.v): read-only model nodes only have children
+   with a smaller index, every mutable model node is owned by a mutable reference node, read-only reference
+   nodes only have earlier children, a mutable reference node folded to TRUE was folded because of its original
+   children, returned keys and children are in range. *)
+Theorem C11_invariant2 : forall o pcl ops r, run o pcl init ops = Ok r -> Inv2 r.
+Proof. intros o pcl ops r H. exact (run_inv2 o pcl ops init r (Inv_init pcl) Inv2_init H). Qed.
+Print Assumptions C11_invariant2.
+
+(* LEAST MODELS.  `natomic g`: every negative key in g points at an atom node (negation on atoms only; positive
+   cycles through mutable disjunctions allowed): the node equations are monotone and the meaning of the graph
+   is its LEAST supported valuation (`least_sol`, defined without reference to any algorithm).
+   If the reference graph of a history negates atoms only, so does the builder's graph and so do the returned
+   keys ... *)
+Theorem C11_negation_on_atoms_inherited : forall o pcl ops r, run o pcl init ops = Ok r -> natomic (rg r) ->
+  natomic (nodes (impl r)) /\ forall n k, nth_error (rmap r) n = Some k -> katom (nodes (impl r)) k.
+Proof. exact natomic_inherited. Qed.
+Print Assumptions C11_negation_on_atoms_inherited.
+
+(* ... both graphs have a least supported valuation (computed by the Kleene iteration kleeneN, |g|+1 rounds) ... *)
+Theorem C11_least_model_exists : forall o pcl ops r, run o pcl init ops = Ok r -> natomic (rg r) ->
+  forall a, least_sol a (nodes (impl r)) (lfpN a (nodes (impl r))) /\ least_sol a (rg r) (lfpN a (rg r)).
+Proof. exact least_exist. Qed.
+Print Assumptions C11_least_model_exists.
+
+Theorem C11_least_model_exists_graph : forall a g, natomic g -> least_sol a g (lfpN a g).
+Proof. exact lfpN_least_sol. Qed.
+Print Assumptions C11_least_model_exists_graph.
+
+(* ... and the least models agree on every returned key: the key returned for the n-th creating call has, in the
+   least model of the builder's graph, the value of reference node n in the least model of the reference graph. *)
+Theorem C11_least_model_equal : forall o pcl ops r, run o pcl init ops = Ok r -> natomic (rg r) ->
+  forall a V W, least_sol a (nodes (impl r)) V -> least_sol a (rg r) W ->
+  forall n ik, nth_error (rmap r) n = Some ik -> vkey V ik = W (Z.of_nat n + 1).
+Proof. exact least_equal. Qed.
+Print Assumptions C11_least_model_equal.
+
+Theorem C11_lfp_equal : forall o pcl ops r, run o pcl init ops = Ok r -> natomic (rg r) ->
+  forall a n ik, nth_error (rmap r) n = Some ik ->
+  vkey (lfpN a (nodes (impl r))) ik = lfpN a (rg r) (Z.of_nat n + 1).
+Proof. exact lfpN_equal. Qed.
+Print Assumptions C11_lfp_equal.
+
+(* The same with ModelBuilder.lfp_val (plain Kleene iteration from the all-false valuation).
+   PARTIAL: only for graphs WITHOUT negative keys, and `posonly` of the builder's graph is a (decidable)
+   hypothesis on the result instead of being derived from `posonly (rg r)`.
+   The first restriction cannot be lifted: lfp_val reads a negated atom from the previous iterate (all-false at
+   the start), so with a negated atom inside a cycle it is not the least model and the equality is FALSE, see
+   C11_lfp_val_negated_atom_cycle below; C11_lfp_equal is the statement for that class.
+   Not covered by any of the least-model theorems: negation of derived (non-atom) nodes (stratified negation);
+   for those histories the proved statements are C11_builder_sound + C11_builder_complete (same supported
+   valuations), the stratified reading is covered by the tie only. *)
+Theorem C11_lfp_val_equal_partial : forall o pcl ops r, run o pcl init ops = Ok r ->
+  posonly (rg r) -> posonly (nodes (impl r)) ->
+  forall a n ik, nth_error (rmap r) n = Some ik ->
+  lfp_val a (nodes (impl r)) ik = lfp_val a (rg r) (Some (Z.of_nat n + 1)).
+Proof. exact lfp_val_equal. Qed.
+Print Assumptions C11_lfp_val_equal_partial.
+
+Theorem C11_lfp_val_is_least : forall a g, posonly g -> exists V, least_sol a g V /\ forall k, lfp_val a g k = vkey V k.
+Proof. exact lfp_val_least. Qed.
+Print Assumptions C11_lfp_val_is_least.
 
 (* Non-vacuity: a history with a mutable disjunction m = or() that is closed into a
    cycle (c = and(m, a, TRUE, m); add_disjunct(m, c); add_disjunct(m, b)), a collapsed
@@ -138,4 +213,48 @@ Example C11_example_acyclic :
   | Ok r => Some (rmap r, length (nodes (impl r)))
   | _ => None
   end = Some ([Some 1; Some 2; Some 3; Some 4; Some 4], 4%nat).
+Proof. vm_compute. reflexivity. Qed.
+
+(* the cyclic example above satisfies the hypothesis of the least-model theorems (negation on atoms only) and the
+   least models computed by kleeneN agree on all returned keys, for all four assignments *)
+Example C11_example_cyclic_natomic :
+  match run ex_opts ex_pcl init ex_ops with
+  | Ok r => Some (natomicb (rg r),
+                  map (fun a => map (fun k => vkey (lfpN a (nodes (impl r))) k) (rmap r)) ex_assigns,
+                  map (fun a => map (fun i => lfpN a (rg r) (Z.of_nat i)) (seq 1 (length (rg r)))) ex_assigns)
+  | _ => None
+  end
+  = Some (true,
+          [[false; false; false; false; false; true; false; true];
+           [false; true; true; false; false; true; false; true];
+           [true; false; false; false; false; true; false; false];
+           [true; true; true; true; true; true; true; true]],
+          [[false; false; false; false; false; true; false; true];
+           [false; true; true; false; false; true; false; true];
+           [true; false; false; false; false; true; false; false];
+           [true; true; true; true; true; true; true; true]]).
+Proof. vm_compute. reflexivity. Qed.
+
+(* Why the least-model theorems are not stated with lfp_val: m = or() mutable; x = and(\+a); q = or(m);
+   add_disjunct(m, q); add_disjunct(m, x), with a true.  Least model: m = q = x = false.  The builder's graph
+   is {1: a, 2: or(2, -1)}.  lfp_val oscillates on the reference graph (m false, q true after 5 rounds) and
+   gets stuck at true on the builder's graph; kleeneN gives false everywhere. *)
+Definition ex2_ops :=
+  [OAtom 0 None; OOr [] true true None None; OAnd [Some (-1)] None None; OOr [Some 2] true false None None;
+   ODisjunct (Some 2) (Some 4); ODisjunct (Some 2) (Some 3)].
+Example C11_lfp_val_negated_atom_cycle :
+  let a := fun _ : Z => true in
+  match run ex_opts ex_pcl init ex2_ops with
+  | Ok r => Some (rmap r, natomicb (rg r),
+                  map (lfp_val a (nodes (impl r))) (rmap r),
+                  map (fun i => lfp_val a (rg r) (Some (Z.of_nat i))) (seq 1 (length (rg r))),
+                  map (vkey (lfpN a (nodes (impl r)))) (rmap r),
+                  map (fun i => lfpN a (rg r) (Z.of_nat i)) (seq 1 (length (rg r))))
+  | _ => None
+  end
+  = Some ([Some 1; Some 2; Some (-1); Some 2], true,
+          [true; true; false; true],
+          [true; false; false; true],
+          [true; false; false; false],
+          [true; false; false; false]).
 Proof. vm_compute. reflexivity. Qed.
